@@ -22,6 +22,12 @@ fp("dask/dataframe/dask_expr/_reductions.py", "TreeReduce._layer", "TreeReduce.s
    "ReductionConstantDim.chunk", "ReductionConstantDim.combine", "Len", "_concat_partials")
 fp("dask/dataframe/core.py", "idxmaxmin_chunk", "idxmaxmin_row", "idxmaxmin_combine", "idxmaxmin_agg")
 fp("dask/dataframe/methods.py", "value_counts_combine", "value_counts_aggregate")
+# C37 extension round (Model/CoMoment.lean)
+fp("dask/dataframe/core.py", "_cov_corr_chunk", "_cov_corr_combine", "_cov_corr_agg")
+fp("dask/dataframe/dask_expr/_reductions.py", "Cov", "Var.reduction_chunk", "Var.reduction_combine", "Var.reduction_aggregate",
+   "Unique.combine", "Unique.aggregate")
+fp("dask/dataframe/dask_expr/_describe.py", "DescribeNumeric._lower")
+fp("dask/dataframe/dask_expr/_collection.py", "FrameBase.sem", "Series.nunique")
 
 # C43
 fp("dask/_expr.py", "Expr.simplify", "Expr.simplify_once", "Expr.lower_once", "Expr.lower_completely", "optimize_until")
